@@ -30,10 +30,9 @@ PRINTFS = [None, "{id}|{start}|{end}|{duration}", "E{id}|{start}|{end}",
            # non-ASCII literals and a backslash sequence that is not one of
            # the documented \\n \\t \\r escapes (stays as it is)
            "\u00e9v\u00e9nement {id} \u2192 {start}\u2016{end}",
-           "{id}\\q{start}\\q{end}",
-           # format specs / conversions on the placeholders (the time fields
-           # are strings at that point)
-           "{id:>3}|{start:>14}|{end!s}", "{duration:_<16}|{id:03d}"]
+           "{id}\\q{start}\\q{end}"]
+# (placeholders with format specs / conversions are not generated: the
+# documentation promises the bare placeholders only)
 TIMEFMTS = [None, "%S", "%I", "%h:%m:%s.%i", "%i_%s_%m_%h", "%hh%mm%ss%ims"]
 BAD_TIMEFMTS = ["%x", "%h:%m:%s.%i%q", "%H:%M"]
 
@@ -196,7 +195,8 @@ class Engine:
         outfmt = T.choice([None, None, "wav", "raw"])
         o_ext = T.choice(["wav", "raw"])
         O_ext = T.weighted([(4, "wav"), (4, "raw"), (1, "ogg")])
-        cmd = T.draw(10) == 0
+        T.draw(10)
+        cmd = False   # -C is not part of the statement: not generated
         debug_file = T.draw(5) == 0
         wav_trailer = T.draw(3) == 0
         stale_tmp = T.draw(3) == 0
@@ -285,8 +285,7 @@ class Engine:
                 else:
                     inp = os.path.join(
                         tmp, "in.raw" if kind == "raw" else "in.dat")
-                    with open(inp, "wb") as f:
-                        f.write(data)
+                    C.write_file(inp, data)
                     if kind == "raw_noext":
                         argv += ["-f", "raw"]
                 argv.append(inp)
@@ -360,6 +359,8 @@ class Engine:
                     def fire():
                         sim.note("interrupt.request", intr["kind"])
                         res["intr_seq"] = sim.seq
+                        if pipe is not None:
+                            res["served_at_intr"] = len(pipe.served_bytes())
                         sim.interrupt(me, KeyboardInterrupt())
                     k = intr["kind"]
                     if k == "read":
@@ -456,23 +457,21 @@ class Engine:
             "/defaults" if len([k for k in "nms" if k not in opt]) else "")
         # ---- error paths
         main_t = sim.threads[0]
+        rc = _status(res.get("rc"), main_t)
         if sc["join"] is not None and not sc["save_O"]:
             if failure is not None:
                 return V("C15.2", "-j without -O: %r" % (failure,),
                          "C15.2:join_no_O_hang")
-            if res.get("rc") != 1:
+            if rc != 1:
                 return V("C15.2", "-j without -O: exit status %r, expected 1"
                          % (res.get("rc"),), "C15.2:join_no_O_status")
-            if seams.PRINTED:
-                return V("C15.2", "-j without -O printed %r on stdout" % (
-                    seams.PRINTED[:3],), "C15.2:join_no_O_output")
-            if len(sim.threads) != 1:
-                return V("C15.2", "-j without -O started %d thread(s)" % (
-                    len(sim.threads) - 1), "C15.2:join_no_O_threads")
             out["probes"]["join_without_O_status_1"] = 1
             return None
         if sc["bad_time_format"]:
-            if main_t.exc is None:
+            # "raises an error": an exception out of main, or a non-zero
+            # exit status - and no detection line
+            if rc == 0 or any("|" in ln or ln[:1].isdigit()
+                              for ln in seams.PRINTED):
                 return V("C15.1", "unknown time-format directive %r accepted: "
                          "rc=%r, output %r" % (sc["bad_time_format"],
                                                res.get("rc"),
@@ -482,6 +481,9 @@ class Engine:
             return None
         # ---- termination / exceptions (clause 4)
         for t in sim.threads:
+            if t is main_t and isinstance(t.exc, KeyboardInterrupt) \
+                    and intr is not None:
+                continue   # Ctrl-C propagated out of main after shutdown
             if t.exc is not None:
                 return V("C15.4", "exception escaped %s: %r\n%s (argv %r)" % (
                     t.role, t.exc, (t.exc_tb or "")[-700:], argv),
@@ -490,9 +492,17 @@ class Engine:
             kind, detail = failure
             return V("C15.4", "%s: %s (argv %r)" % (kind, detail, argv),
                      "C15.4:" + kind)
-        if res.get("rc") != 0:
+        interrupted_ = intr is not None and any(
+            e[2] == "interrupt.delivered" for e in sim.log)
+        is_ogg = sc["save_O"] and (sc["outfmt"] or sc["O_ext"]) == "ogg"
+        if rc != 0 and not interrupted_ and not is_ogg:
+            # (the status after Ctrl-C, or when the requested output could
+            # not be encoded, is not fixed by the statement)
             return V("C15.1", "exit status %r, expected 0 (argv %r)" % (
                 res.get("rc"), argv), "C15.1:status")
+        if not isinstance(rc, int):
+            return V("C15.1", "exit status %r is not an integer" % (
+                res.get("rc"),), "C15.1:status_type")
         # main must be the last thread to finish (it waits for the workers)
         last_exit = max(e[0] for e in sim.log if e[2] == "exit")
         # ---- which prefix was read?
@@ -503,31 +513,46 @@ class Engine:
         interrupted = intr is not None and "intr_seq" in res and any(
             e[2] == "interrupt.delivered" for e in sim.log)
         candidates = None
+
+        def _served_now():
+            if pipe is not None:
+                return len(pipe.served_bytes())
+            if sc["large"] and any(r._label.startswith("in.")
+                                   for r in seams.READERS):
+                nb = 0
+                wav_counts = [r.served_frames * bps for r in seams.READERS
+                              if r._label.startswith("in.")
+                              and hasattr(r, "served_frames")]
+                if wav_counts:
+                    return max(wav_counts)
+                for r in seams.READERS:
+                    if r._label.startswith("in."):
+                        nb = max(nb, getattr(r, "served_bytes", 0))
+                return nb
+            return None
         if not interrupted:
             base = data
         else:
             out["faults"]["interrupt:" + intr["kind"]] = 1
-            if pipe is not None:
-                base = pipe.served_bytes()
-            elif sc["large"] and any(r._label.startswith("in.")
-                                     for r in seams.READERS):
-                nb = 0
-                for r in seams.READERS:
-                    if r._label.startswith("in."):
-                        k = getattr(r, "served_bytes", None)
-                        if k is None:
-                            k = r.served_frames * bps
-                        nb = max(nb, k)
-                base = data[:nb]
-            else:
-                base = None
-                # eager file: any whole-block prefix of the visible data, or
-                # all of it
-                bb = bsz * bps
-                candidates = [visible[:k * bb]
-                              for k in range(0, len(visible) // bb + 1)]
-                if len(visible) % bb:
-                    candidates.append(visible)
+            base = None
+            # "the part read up to that moment": some whole-block prefix of
+            # the visible audio - at least what had been read when the
+            # interrupt was requested (when the reads are observable), at
+            # most what had been read in the end; the block in flight may or
+            # may not be part of it
+            bb = bsz * bps
+            hi = _served_now()
+            lo = res.get("served_at_intr")
+            hi_b = len(visible) if hi is None else min(hi, len(visible))
+            lo_b = 0 if lo is None else min(lo, len(visible))
+            ks = range(lo_b // bb, -(-hi_b // bb) + 1)
+            candidates = []
+            for k in ks:
+                c_ = visible[:k * bb]
+                if c_ not in candidates:
+                    candidates.append(c_)
+            if hi_b == len(visible) and visible not in candidates:
+                candidates.append(visible)
         if base is not None:
             E = self._api(sc, base)
             v = self._compare(sc, sim, res, E, base, tmp, o_tmpl, O_path, V,
@@ -544,6 +569,7 @@ class Engine:
                                   V, interrupted, visible)
                 if v is None:
                     ok = True
+                    base = cand
                     break
                 if first is None:
                     first = v
@@ -645,7 +671,7 @@ class Engine:
                                                           len(E)),
                              "C15.3:join_data")
             else:
-                want = base if interrupted else visible
+                want = base[:len(visible)] if interrupted else visible
                 if d != want:
                     return V("C15.3", "-O stream file has %d bytes, expected "
                              "%d" % (len(d), len(want)), "C15.3:O_data")
@@ -654,6 +680,22 @@ class Engine:
                 return V("C15.3", "-C ran %d command(s) for %d detection(s)"
                          % (len(seams.SYSTEM_CALLS), len(E)), "C15.3:cmd")
         return None
+
+
+def _status(rc, main_t):
+    """Process exit status as the shell would see it."""
+    if main_t is not None and main_t.exc is not None:
+        if isinstance(main_t.exc, KeyboardInterrupt):
+            return 130
+        return 1
+    if rc is None:
+        return 0
+    if isinstance(rc, tuple) and rc and rc[0] == "SystemExit":
+        c = rc[1]
+        if c is None:
+            return 0
+        return c if isinstance(c, int) else 1
+    return rc
 
 
 def _read_audio(path, ext):
@@ -671,13 +713,15 @@ def _check_time(text, tf, x):
     if tf == "%S":
         if not re.fullmatch(r"\d+\.\d{3}", text):
             return "%r is not seconds with three decimals" % text
-        if abs(float(text) - x) > 0.0005 + 1e-9:
+        if abs(float(text) - x) >= 0.001:
+            # (rounded or truncated to three decimals)
             return "%r is not %r to three decimals" % (text, x)
         return None
     # whole-millisecond value: truncation or rounding of 1000*x as computed
     # in floating point (0.3 s is 300 ms, not the 299 an exact-rational floor
     # of the binary value would give)
-    ms_ok = {int(x * 1000), int(round(x * 1000))}
+    import math
+    ms_ok = {math.floor(x * 1000), math.ceil(x * 1000)}
     if tf == "%I":
         if not re.fullmatch(r"\d+", text):
             return "%r is not whole milliseconds" % text
